@@ -197,7 +197,7 @@ func zzPermits(c *zzCfg, in zzIntent) bool {
 	return true
 }
 
-var zzHeaderUniverse = []string{"authorization", "x-a", "x-b", "x-c"}
+var zzHeaderUniverse = []string{"authorization", "x-a", "x_b", "x-c"}
 
 func zzH_C02_api() {
 	thorough := zzTier() >= 1
